@@ -185,6 +185,7 @@ func (r *spaceRunner) run(b spaceBounds) {
 	r.graphFamily()
 	// (e) string-content family
 	r.stringFamily()
+	r.quotedTextFamily()
 	// (f) API call sequences in unusual orders
 	r.apiFamily()
 	// (h) the annotated-model family (every rule kind with its boundary values, incl.
@@ -599,7 +600,7 @@ func init() {
 	Register(&Prop{
 		ID:        "C02",
 		Technique: "bounded exhaustive token strings + explicit-state search over the three real scanners and the number recogniser (every state x byte class x end of input) + every truncation of the test corpus + exhaustive small reference graphs, each through the full call bundle in crash-contained worker processes",
-		Rule: "per entry point (schema, enum rule, regex, JSON document, number): all strings of <= N tokens; all reachable abstract scanner states x byte classes (both scanner modes); every prefix of every string literal of the repository's tests; all projects of <=3 self/mutually referencing types from 10 reference forms x every registered subset; exponent grid. " +
+		Rule: "per entry point (schema, enum rule, regex, JSON document, number): all strings of <= N tokens; all reachable abstract scanner states x byte classes (both scanner modes); every prefix of every string literal of the repository's tests; all projects of <=3 self/mutually referencing types from 10 reference forms x every registered subset; exponent grid; 21 formatter-significant fragments in each of 38 places whose diagnostics quote user text. " +
 			"Bundle: Len, Check, Example, GetAST, UsedUserTypes, AddType/AddRule, NextLexeme loop, NewNumber, GuessSchemaType, OpenAPI of accepted schemas. non-trivial = distinct inputs executed",
 		Bounds: func(tier string) map[string]any {
 			b := c02Bounds(tier)
@@ -678,6 +679,39 @@ func (r *spaceRunner) violationFamily() {
 	}
 	if w.Shard == 0 {
 		w.Count("violation_family.projects", i)
+	}
+}
+
+// quotedTextFamily: diagnostics quote the user's own text (a key, a rule name, a type name,
+// an enum value, a string checked against a format, a regular expression). Every such place
+// is filled with fragments that mean something to a formatter or to a renderer.
+func (r *spaceRunner) quotedTextFamily() {
+	w := r.w
+	frags := []string{`%`, `%!`, `%!s`, `%s`, `%d`, `%v`, `%%`, `%!(EXTRA string=x)`, `%!s(MISSING)`, `a%!b`, `%[1]s`, `%*d`, `{0}`, `<nil>`, `\\n`, `\\"`, `\\u0025\\u0021`, "\t", `$1`, `é%!`, `%!é`}
+	places := []struct{ entry, text string }{
+		{"schema", `{"F": 1, "F": 2}`}, {"schema", `1 // {"F": 1}`}, {"schema", `1 // {F: 1}`}, {"schema", `1 // {type: "F"}`}, {"schema", `"x" // {or: ["F", "string"]}`},
+		{"schema", `"x" // {or: [{type: "F"}, {type: "string"}]}`}, {"schema", `{} // {allOf: "F"}`}, {"schema", `{} // {additionalProperties: "F"}`}, {"schema", `"a" // {enum: ["F", "F"]}`},
+		{"schema", `"F" // {type: "email"}`}, {"schema", `"F" // {type: "uri"}`}, {"schema", `"F" // {type: "date"}`}, {"schema", `"F" // {type: "datetime"}`}, {"schema", `"F" // {type: "uuid"}`},
+		{"schema", `"F" // {regex: "^z$"}`}, {"schema", `"x" // {regex: "(F"}`}, {"schema", `"F" // {enum: ["a"]}`}, {"schema", `"F" // {type: "integer"}`}, {"schema", `"F" // {minLength: 99}`},
+		{"schema", `"F" // {type: "@t"}`}, {"schema", `@F`}, {"schema", `@a | @F`}, {"schema", "{\n\t@F: 1\n}"}, {"schema", `"x" // {enum: @F}`}, {"schema", `1 // {min: "F"}`}, {"schema", `1 // {min: F}`},
+		{"schema", `1 // {serializeFormat: "F"}`}, {"schema", `F`}, {"schema", `"x" F`}, {"schema", `1 // F`},
+		{"enum", `["F", "F"]`}, {"enum", `["a", F]`}, {"enum", `F`},
+		{"regex", `/(F/`}, {"regex", `/F[/`}, {"regex", `/F`},
+		{"jsondoc", `{"F": tru}`}, {"jsondoc", `F`},
+	}
+	var i int64
+	for _, pl := range places {
+		for _, f := range frags {
+			i++
+			if !w.Mine(i) {
+				continue
+			}
+			r.bytesCase(pl.entry, []byte(strings.ReplaceAll(pl.text, "F", f)))
+			w.S.Nontrivial++
+		}
+	}
+	if w.Shard == 0 {
+		w.Count("quoted_text.cases", i)
 	}
 }
 
